@@ -385,6 +385,11 @@ func TestVerifC16(t *testing.T) {
 			c16Snippet(r, rp.Snippet.Src, rp.Snippet.Line, rp.Snippet.Col)
 			return
 		}
+		if strings.HasPrefix(rp.What, "LintFiles") {
+			c16MultiFile(t, r)
+			c16MultiFile(t, r)
+			return
+		}
 		for k := 0; k < 2; k++ {
 			res := vLint(rp.Src, &LinterOptions{Oneline: true})
 			fmt.Printf("replay %d:\n%s\noutput:\n%s\n", k, rp.Src, res.Out)
@@ -466,6 +471,11 @@ func TestVerifC16(t *testing.T) {
 		}
 	}
 	r.Bounds["multi_site_templates"] = len(c16Templates)
+
+	// ---- (a3) several files in one LintFiles call: what is printed is what is returned, in that order
+	if r.Shard == 0 {
+		c16MultiFile(t, r)
+	}
 
 	// ---- (b) snippet renderer
 	alpha := []string{"a", " ", "\t", "\n", "é", "あ"}
@@ -564,4 +574,102 @@ func c16Snippet(r *vReport, src string, line, col int) {
 		}
 	}
 	r.Class("snippet:shown", true)
+}
+
+// c16MultiFile lints every ordering of three workflow files (names chosen so that argument order,
+// byte order and case-folded order all differ) with LintFiles in -oneline and {{json .}} mode and
+// compares the printed sequence with the returned one.
+func c16MultiFile(t *testing.T, r *vReport) {
+	dir := vTempDir(t, "c16-")
+	files := map[string]string{
+		"b.yaml": "on: push\njobs:\n  a:\n    runs-on: ubuntu-latest\n    steps:\n      - run: echo ${{ nosuch1 }}\n      - run: echo\n        shell: nosuchshell\n",
+		"a.yaml": "on: push\njobs:\n  a:\n    runs-on: nosuchlabel\n    steps:\n      - run: echo ${{ nosuch2 }}\n",
+		"B.yaml": "on: push\njobs:\n  a:\n    runs-on: ubuntu-latest\n    steps:\n      - run: echo ${{ nosuch3 }}\n",
+	}
+	vWriteFiles(t, dir, files)
+	names := []string{"b.yaml", "a.yaml", "B.yaml"}
+	var orders [][]string
+	for _, p := range c18PermsCopy(names) {
+		orders = append(orders, p, p[:2])
+	}
+	for _, ord := range orders {
+		for _, mode := range []string{"oneline", "json"} {
+			var out bytes.Buffer
+			opts := LinterOptions{Color: ColorOptionKindNever, WorkingDir: dir}
+			if mode == "oneline" {
+				opts.Oneline = true
+			} else {
+				opts.Format = "{{json .}}"
+			}
+			l, err := NewLinter(&out, &opts)
+			if err != nil {
+				r.HarnessError("NewLinter: %v", err)
+				return
+			}
+			var paths []string
+			for _, n := range ord {
+				paths = append(paths, filepath.Join(dir, n))
+			}
+			errs, lerr := l.LintFiles(paths, nil)
+			color.NoColor = true
+			r.Evaluations++
+			r.Transitions++
+			r.Validated++
+			what := fmt.Sprintf("LintFiles%v mode %s", ord, mode)
+			replay := map[string]any{"src": "", "what": what}
+			if lerr != nil || len(errs) == 0 {
+				r.HarnessError("%s: err=%v, %d diagnostics", what, lerr, len(errs))
+				continue
+			}
+			var printed []string
+			if mode == "oneline" {
+				for _, line := range strings.Split(strings.TrimSuffix(out.String(), "\n"), "\n") {
+					if m := c16Matcher.FindStringSubmatch(line); m != nil {
+						printed = append(printed, fmt.Sprintf("%s:%s:%s:%s", m[1], m[2], m[3], m[4]))
+					} else {
+						printed = append(printed, "UNPARSED "+line)
+					}
+				}
+			} else {
+				var fields []ErrorTemplateFields
+				if err := json.Unmarshal(out.Bytes(), &fields); err != nil {
+					r.Violation("multi-file-json-invalid", fmt.Sprintf("%s: %v", what, err), replay)
+					continue
+				}
+				for _, f := range fields {
+					printed = append(printed, fmt.Sprintf("%s:%d:%d:%s", f.Filepath, f.Line, f.Column, f.Message))
+				}
+			}
+			var returned []string
+			for _, e := range errs {
+				returned = append(returned, fmt.Sprintf("%s:%d:%d:%s", e.Filepath, e.Line, e.Column, e.Message))
+			}
+			if strings.Join(printed, "\n") != strings.Join(returned, "\n") {
+				r.Violation("multi-file-printed-vs-returned:"+mode, fmt.Sprintf("%s: the printed diagnostics are not the returned ones in the returned order\n printed:  %v\n returned: %v", what, c16Heads(printed), c16Heads(returned)), replay)
+			}
+			r.Class("multi-file "+mode, true)
+		}
+	}
+}
+
+func c16Heads(xs []string) []string {
+	out := make([]string, len(xs))
+	for i, x := range xs {
+		out[i] = vTrunc(x, 40)
+	}
+	return out
+}
+
+func c18PermsCopy(xs []string) [][]string {
+	if len(xs) <= 1 {
+		return [][]string{append([]string{}, xs...)}
+	}
+	var out [][]string
+	for i := range xs {
+		rest := append(append([]string{}, xs[:i]...), xs[i+1:]...)
+		for _, p := range c18PermsCopy(rest) {
+			out = append(out, append([]string{xs[i]}, p...))
+		}
+	}
+	return out
 }
